@@ -262,6 +262,42 @@ Definition tx_region (d : db) (pending : list bytes) (i off n : N) : res bytes :
        | None => Err ENotFound
        end.
 
+(* bulk reads.  FetchBlockRegions (and FetchBlockHeaders, which calls it): a
+   first loop checks every request in order (pending block / index row / bounds:
+   the first ErrBlockNotFound or ErrBlockRegionInvalid is returned), a second
+   loop performs the file reads sorted by location (any failure there is
+   ErrDriverSpecific); the results come back in request order, each being what
+   the single-region read returns. *)
+Definition is_early (e : err) : bool := match e with ENotFound | ERegion => true | _ => false end.
+Fixpoint first_err (f : err -> bool) (rs : list (res bytes)) : option err :=
+  match rs with
+  | [] => None
+  | Err e :: t => if f e then Some e else first_err f t
+  | _ :: t => first_err f t
+  end.
+Fixpoint oks (rs : list (res bytes)) : list bytes :=
+  match rs with [] => [] | Ok b :: t => b :: oks t | _ :: t => oks t end.
+Definition has_panic (rs : list (res bytes)) : bool :=
+  existsb (fun r => match r with Panic => true | _ => false end) rs.
+Definition bulk (rs : list (res bytes)) : res (list bytes) :=
+  match first_err is_early rs with
+  | Some e => Err e
+  | None => match first_err (fun _ => true) rs with
+            | Some e => Err e
+            | None => if has_panic rs then Panic else Ok (oks rs)
+            end
+  end.
+Definition tx_regions (d : db) (pending : list bytes) (reqs : list (N * N * N)) : res (list bytes) :=
+  bulk (map (fun q => tx_region d pending (fst (fst q)) (snd (fst q)) (snd q)) reqs).
+Definition tx_headers (d : db) (pending : list bytes) (is : list N) : res (list bytes) :=
+  tx_regions d pending (map (fun i => (i, 0, hdr_size)) is).
+(* FetchBlocks: FetchBlock one after the other, the first failure is returned *)
+Definition seq_all (rs : list (res bytes)) : res (list bytes) :=
+  match first_err (fun _ => true) rs with
+  | Some e => Err e
+  | None => if has_panic rs then Panic else Ok (oks rs)
+  end.
+
 (* Close (files and metadata persist) followed by Open: scan + reconcileDB *)
 Definition db_reopen (d : db) : res db :=
   match deser_wrow (d_wrow d) with
